@@ -226,6 +226,7 @@ func c05Restore(w *hWorld, s *c05Saved) {
 
 // ---- scenario driver: scripted / enumerated calls with monitors and Coq-case emission ----
 var c05Emitted int // Coq exec cases emitted by scenario drivers of this run
+var c05Sampled = map[string]bool{}
 
 type c05Scen struct {
 	c         *ctx
@@ -262,6 +263,10 @@ func (s *c05Scen) step(op *worldOp) *stepResult {
 	c.note(c05Hash(c05StateDigest(pre), op.String()), true)
 	for _, m := range s.mons {
 		m(c, w, pre, sr, s.hist)
+	}
+	if !c05Sampled[s.label] && sr.Res.Status == 0 && s.emitEvery > 0 {
+		c05Sampled[s.label] = true
+		c.sample(map[string]string{"family": s.label, "op": op.String(), "status": "ok"})
 	}
 	s.n++
 	if s.emitEvery > 0 && s.n%s.emitEvery == 0 && (s.maxCases == 0 || c05Emitted < s.maxCases) {
@@ -930,7 +935,7 @@ func init() {
 		c05Tour(c, u, mons, 2, 0, 4)
 		n, ops, prob, max := 5, 220, 2, 550
 		if wide {
-			n, ops, prob, max = 60, 500, 6, 5000
+			n, ops, prob, max = 160, 500, 16, 5000
 		}
 		c.walk(u, walkOpts{Worlds: n, Ops: ops, Proj: c05ProjState, Monitors: []monitor{c05Adapt(mons...)}, EmitProb: prob, MaxCases: max,
 			Tune: func(g *gen) {
